@@ -10,3 +10,4 @@ import Photon.Model.RangeLock
 import Photon.Properties.C18
 import Photon.Model.Sync
 import Photon.Properties.C04
+import Photon.Properties.C01
